@@ -77,6 +77,14 @@ class C16(Prop):
                 yield {"k": "state", "name": "random_bit_state", "n": n, "r": 0, "seed": sd, "pkg": "py"}
                 for cname in ("onsite_rcc", "global_rcc") + (("brickwall_rcc",) if n % 2 == 0 else ()):
                     yield {"k": "circ", "name": cname, "n": n, "seed": sd, "depth": 1 + t % 3}
+        # registers across the 64-bit word boundary (validity only; highly mixed states keep the group enumerable)
+        for n in (64, 65, 66):
+            for t in range(3 if thorough else 1):
+                sd = base + 97 * n + t
+                for name in ("random_clifford_map", "random_pauli_map"):
+                    yield {"k": "map", "name": name, "n": n, "seed": sd, "pkg": "py"}
+                for name in ("random_clifford_state", "random_pauli_state"):
+                    yield {"k": "state", "name": name, "n": n, "r": n - 2, "seed": sd, "pkg": "py"}
         f = 4 if thorough else 1
         yield {"k": "tally", "name": "random_clifford_n1", "n": 1, "M": 12000 * f, "seed": base + 1, "signed": True, "expect": 24}
         yield {"k": "tally", "name": "random_clifford_n2", "n": 2, "M": 72000 * f, "seed": base + 2, "signed": False, "expect": 720, "pkg": "py"}
